@@ -39,8 +39,28 @@ MODELS = {
     "softmax": lambda: nets.build(H(([1, 8, 8, 8], "int8"), ["softmax"]), 0),
     # two networks whose first heuristic allocation is not optimal: the hill-climb search (random swaps) really runs
     "hc_search_a": lambda: nets.build(H(([1, 16, 16, 8], "int8"), ["concat", "conv5x5_c24", "conv5x5_c24"]), 0),
+    # a network whose schedule depends on the arena cache size (used with two --config files that disagree on it)
+    "cache_sensitive": lambda: nets.build(H(([1, 32, 32, 16], "int8"), ["conv3x3", "conv3x3", "conv3x3"]), 0),
     "hc_search_b": lambda: nets.build(H(([1, 16, 16, 8], "int8"), ["conv3x3", "add_res", "conv3x3v_relu6", "conv3x3v_relu6"]), 0),
 }
+TWO_CFG = """[System_Config.My_Sys]
+core_clock=500e6
+axi0_port=Sram
+axi1_port=OffChipFlash
+Sram_clock_scale=1.0
+Sram_burst_length=32
+Sram_read_latency=32
+Sram_write_latency=32
+OffChipFlash_clock_scale=0.125
+OffChipFlash_burst_length=128
+OffChipFlash_read_latency=64
+OffChipFlash_write_latency=64
+[Memory_Mode.My_Mem]
+const_mem_area=Axi1
+arena_mem_area=Axi0
+cache_mem_area=Axi0
+arena_cache_size=%d
+"""
 ENTRIES = [("main", "ethos-u65-256"), ("main", "ethos-u55-128"), ("main", "ethos-u65-512"), ("convert", None), ("convert_bytes", None)]
 
 _model_bytes = {}
@@ -63,8 +83,16 @@ def run_event(ev, workdir):
     open(src, "wb").write(mb)
     os.chdir(d)
     try:
-        if entry == "main":
-            st = vela.main([src, "--output-dir", os.path.join(d, "out"), "--accelerator-config", acc])
+        if entry in ("main", "main2cfg"):
+            args = [src, "--output-dir", os.path.join(d, "out"), "--accelerator-config", acc]
+            if entry == "main2cfg":
+                # two configuration files that disagree on one key (documented: --config may be given several times)
+                os.makedirs(os.path.join(d, "cfg", "sub"))
+                a, b = os.path.join(d, "cfg", "sub", "base.ini"), os.path.join(d, "cfg", "sub", "board.ini")
+                open(a, "w").write(TWO_CFG % 2097152)
+                open(b, "w").write("[Memory_Mode.My_Mem]\narena_cache_size=24576\n")
+                args += ["--config", a, "--config", b, "--system-config", "My_Sys", "--memory-mode", "My_Mem"]
+            st = vela.main(args)
             if st != 0:
                 return ("status", st)
             out = open(os.path.join(d, "out", "net_vela.tflite"), "rb").read()
@@ -180,7 +208,7 @@ def run(ctx):
     core.bind_repo()
     quick = ctx.tier == "quick"
     models = list(MODELS)
-    events = [(m, e, a) for m in models for (e, a) in ENTRIES]
+    events = [(m, e, a) for m in models for (e, a) in ENTRIES] + [("cache_sensitive", "main2cfg", "ethos-u55-128"), ("conv_logistic", "main2cfg", "ethos-u55-128")]
     # reference: every event alone
     alone = {}
     for out in pmap(_shard, [[[list(ev)]] for ev in events], chunksize=4):
@@ -224,7 +252,10 @@ def run(ctx):
                 ctx.violation(key, "after %s, event %s gives %s; alone it gives %s" % (h[:-1], h[-1], describe(r), describe(ref)), dict(history=h))
     # fresh interpreters: hash seeds and heap layouts
     seeds = [(0, 0), (1, 0), (2, 37), (7, 0)] if quick else [(s, j) for s in range(8) for j in (0, 37)]
-    fresh_events = [ev for ev in events if ev[1] == "main" and ev[2] == "ethos-u65-256"] + [(m, "convert_bytes", None) for m in ("dup_names", "branchy")]
+    fresh_events = [ev for ev in events if ev[1] == "main" and ev[2] == "ethos-u65-256"] + [(m, "convert_bytes", None) for m in ("dup_names", "branchy")] + \
+        [ev for ev in events if ev[1] == "main2cfg"]
+    if quick:
+        seeds = seeds + [(3, 0), (8, 0)]
     nfresh = 0
     for ev, results in pmap(_fresh_shard, [(ev, seeds) for ev in fresh_events]):
         ref = alone[tuple(ev)]
